@@ -455,7 +455,7 @@ func ruleFlagGuards(c *core.Ctx) {
 		}
 		lg := c.Prog.Func("pdf", "lengthGetter.Get")
 		o.At(lg.Site(lg.Decl, "length getter"))
-		o.Require(strings.Contains(c.Prog.Src(lg.Decl.Body), "g.Reader.get(ref,canObjStm,true)"), "the length getter does not read in scalar-only mode")
+		o.Shape(strings.Contains(c.Prog.Src(lg.Decl.Body), "g.Reader.get(ref,canObjStm,true)"), "the length getter does not read in scalar-only mode")
 		ro := c.Prog.Func("pdf", "(*scanner).ReadObject")
 		rg := ro.Graph()
 		// composite kinds are refused in scalar-only mode: a condition on s.scalarOnly with an error exit dominates ReadDict/ReadArray/ReadStreamData
@@ -595,7 +595,7 @@ func ruleLimitTable(c *core.Ctx) {
 		}
 		o.Require(okAdd, "the summands are not widened to 64 bits before they are added")
 		src := c.Prog.Src(fn.Decl.Body)
-		o.Require(strings.Contains(src, "maxEntries:=min(int64(maxXRefSize),limits.MaxXRefEntries(rawLen))"), "the cap is not min(maxXRefSize, MaxXRefEntries(rawLen))")
+		o.Shape(strings.Contains(src, "maxEntries:=min(int64(maxXRefSize),limits.MaxXRefEntries(rawLen))"), "the cap is not min(maxXRefSize, MaxXRefEntries(rawLen))")
 	})
 	c.Check(rule, "pdf.getObjStm/N", "the number of objects in an object stream is capped before the index is allocated", func(o *core.Ob) {
 		fn := c.Prog.Func("pdf", "getObjStm")
@@ -699,9 +699,9 @@ func rulePanicTable(c *core.Ctx) {
 		gc := c.Prog.Func("pdf", "getCryptFilter")
 		src := c.Prog.Src(gc.Decl.Body)
 		o.At(gc.Site(gc.Decl, "CFM table"))
-		o.Require(strings.Contains(src, "default:") && strings.Contains(src, "return nil,") || strings.Contains(src, "returnnil,"), "getCryptFilter has no rejecting default for unknown CFM")
+		o.Shape(strings.Contains(src, "default:") && strings.Contains(src, "return nil,") || strings.Contains(src, "returnnil,"), "getCryptFilter has no rejecting default for unknown CFM")
 		os := c.Prog.Func("pdf", "openStdSecHandler")
-		o.Require(strings.Contains(c.Prog.Src(os.Decl.Body), "ifR<2||R>6{returnnil,&MalformedFileError{"), "openStdSecHandler does not reject revisions outside 2..6")
+		o.Shape(strings.Contains(c.Prog.Src(os.Decl.Body), "ifR<2||R>6{returnnil,&MalformedFileError{"), "openStdSecHandler does not reject revisions outside 2..6")
 	})
 }
 
